@@ -93,6 +93,27 @@ Proof.
 Qed.
 Print Assumptions C09_float_range_overflow_refuted.
 
+(* KNOWN FINDING float_one_sided_finite_overflow: finite, less_or_equal = -3.0e38 on f32, bytes
+   B6 ED 21 FE (base value -5.38e37): -|b| + -3.0e38 = -inf *)
+Theorem C09_float_one_sided_overflow_refuted :
+  exists (d : decl) (bs : bytes), bytes_ok bs = true /\ arb_float (the_lib d) d bs = OPanic.
+Proof.
+  exists (ex_decl (FFloat false) [] [VFinite; VLessOrEqual (BLit 4284592614)]), [182; 237; 33; 254].
+  vm_compute. auto.
+Qed.
+Print Assumptions C09_float_one_sided_overflow_refuted.
+
+(* KNOWN FINDING float_exclusive_upper_overshoot_exceeds_delta: finite, [-956.078, 0.9478) on
+   f32, all-ones bytes: the scaled value overshoots the upper bound by more than the delta *)
+Theorem C09_float_exclusive_upper_overshoot_refuted :
+  exists (d : decl) (bs : bytes), bytes_ok bs = true /\ arb_float (the_lib d) d bs = OPanic.
+Proof.
+  exists (ex_decl (FFloat false) [] [VFinite; VGreaterOrEqual (BLit 3295610110); VLess (BLit 1064477445)]),
+         [255; 255; 255; 255].
+  vm_compute. auto.
+Qed.
+Print Assumptions C09_float_exclusive_upper_overshoot_refuted.
+
 (* the repaired two-sided case: greater = 0.0, less_or_equal = 1.0 on f64, eight zero bytes *)
 Example C09_float_two_sided_fixed :
   let d := ex_decl (FFloat true) [] [VGreater (BLit 0); VLessOrEqual (BLit 4607182418800017408)] in
